@@ -245,10 +245,85 @@ def r13e(F):
 	out.append(Result('13.e', okb, ('ok:' if okb else 'shape:') + 'len-used-both-ways', 'SocketAddress::len is used by the node_announcement writer and reader (%s)' % sorted(users), len(users), where=F.where(fn)))
 	return out
 
+_LEN_CALLS = ('alloc::string::String::len', 'core::str::<impl str>::len', 'alloc::vec::Vec::len', 'core::slice::<impl [T]>::len', 'lightning::ln::msgs::SocketAddress::len')
+
+def r13f(F):
+	"""a u16 length prefix written in front of raw bytes is the BYTE length of exactly those bytes"""
+	out = []
+	n = 0
+	for fn in sorted(F.fns):
+		if not (fn.startswith('<lightning::ln::msgs::') and fn.endswith('Writeable>::write')):
+			continue
+		fu = F.func(fn)
+		ex = Expr(fu)
+		u16s, raws = [], []
+		for b, ci in fu.calls():
+			f = norm(ci.get('f') or ci.get('t') or '')
+			if f.endswith('<u16 as lightning::util::ser::Writeable>::write'):
+				u16s.append((b, ex.of_operand(ci['args'][0])))
+			elif f.endswith('Writer::write_all'):
+				raws.append((b, ex.of_operand(ci['args'][1])))
+		short = fn.split(' as ')[0].rsplit('::', 1)[-1]
+		for b, e in u16s:
+			lv = expr_leaves(e)
+			if not lv['calls']:
+				continue     # a plain field (e.g. cltv_expiry_delta), not a computed length
+			# the first raw write that follows
+			nxt = [(rb, re_) for rb, re_ in raws if rb in fu.reach([b]) and rb != b]
+			if not nxt:
+				continue
+			nxt.sort(key=lambda x: fu.line_of(x[0]))
+			rb, re_ = nxt[0]
+			n += 1
+			calls = {c for c in lv['calls'] if not c.endswith('::from') and not c.endswith('::into')}
+			bad_calls = sorted(c for c in calls if c not in _LEN_CALLS and not c.endswith('::len'))
+			rf = expr_leaves(re_)['fields']
+			common = rf & lv['fields']
+			ok = not bad_calls and bool(common)
+			out.append(Result('13.f', ok, ('ok:' if ok else 'length:') + 'prefix-is-byte-length@' + short, '%s: the u16 written before the raw bytes of %s is %s%s' % (short, sorted(rf), leaf_key(e)[:70], '' if ok else ' - not the byte length of that buffer (%s): for data whose byte length differs the reader stops early or reads into the next field' % (bad_calls or 'different field')), 1, where=F.where(fn, fu.line_of(b))))
+	if n < 3:
+		out.append(Result('13.f', False, 'floor:length-prefixed-raw-writes', 'only %d length-prefixed raw writes found in ln::msgs (expected >= 3: error, warning, node_announcement)' % n, n))
+	return out
+
+def r13g(F):
+	"""node_announcement addresses: the count of consumed bytes advances only by the full size of a decoded address"""
+	out = []
+	fns = [n for n in F.fns if n.startswith('<lightning::ln::msgs::UnsignedNodeAnnouncement as ') and n.endswith('::read_from_fixed_length_buffer')]
+	if len(fns) != 1:
+		return [Result('13.g', False, 'anchor:node-announcement-reader', 'the UnsignedNodeAnnouncement reader was not found (%d candidates)' % len(fns))]
+	fu = F.func(fns[0])
+	ex = Expr(fu)
+	# the position counter: the u16 local initialised to 0 and updated later (it is compared with the addrlen read from the stream)
+	pos = set()
+	for l, defs in fu.defs.items():
+		if fu.locals[l].get('ty') == 'u16' and len(defs) >= 2 and any(d[3][0] == 'use' and d[3][1][0] == 'k' and d[3][1][1].get('v') == 0 for d in defs):
+			pos.add(l)
+	if len(pos) != 1:
+		return [Result('13.g', False, 'anchor:position-counter', 'node_announcement reader: expected one u16 position counter initialised to 0, found %d' % len(pos), where=F.where(fu.name))]
+	L = list(pos)[0]
+	adv, bad = 0, []
+	for bi, si, pl, rv in fu.defs[L]:
+		if bi not in fu.reach([0]):
+			continue
+		if rv[0] == 'use' and rv[1][0] == 'k' and rv[1][1].get('v') == 0:
+			continue
+		e = ex.of_rvalue(rv)
+		terms, k = linear(e)
+		lens = [v for v in terms if 'len(' in v]
+		if len(lens) == 1 and terms[lens[0]] == 1 and k == 1 and len(terms) == 2:
+			adv += 1
+		else:
+			bad.append((fu.line_of(bi), expr_str(e)[:60]))
+	ok = adv == 1 and not bad
+	out.append(Result('13.g', ok, ('ok:' if ok else 'accounting:') + 'address-position-advances-by-entry-size', 'node_announcement reader: the consumed-byte counter is advanced only by 1 + len(address) of a decoded address (%d such site(s))%s' % (adv, '' if not bad else '; other updates: %s - the split between excess_address_data and excess_data moves, so an announcement with an unknown address type does not re-encode to the signed bytes' % bad), adv + len(bad), where=F.where(fu.name, bad[0][0] if bad else None)))
+	return out
+
 RULES = [
 	('13.a', 'wire::Message tables (write / type_id / do_read) agree; type ids distinct; unknown even disconnects, unknown odd ignored', r13a),
 	('13.b', 'hand-written message TLV tables: every written type is read; macro codecs symmetric with increasing types', r13b),
 	('13.c', 'every TLV read loop of a wire decoder: increasing types, unknown-even rejected, records framed and drained', r13c),
 	('13.e', 'address length accounting uses the wire length width (u16) in both directions', r13e),
+	('13.f', 'u16 length prefixes before raw bytes are the byte length of those bytes (error / warning / node_announcement)', r13f),
+	('13.g', 'node_announcement address accounting: the consumed-byte counter advances only by a decoded address', r13g),
 	('13.d', 'BigSize / CollectionLength: writer widths equal reader minimality thresholds; non-minimal forms rejected', r13d),
 ]
